@@ -42,6 +42,9 @@ func twoCacheConfig(store1, store2 string) Config {
 
 func genC18(g *Gen) *Plan {
 	p := &Plan{Profile: "C18", Seed: g.Seed, Policy: g.policy(), ClockMenuMs: []int{300, 1000}, ClockWeight: pick(g, 0.0, 0.03), MaxSteps: 3000}
+	// (Host names are matched byte for byte by the cache key and by the purge key alike; a
+	// quarter of the plans use one with capitals)
+	host := pick(g, hostA, hostA, hostA, "A.Test")
 	s1, s2 := "", ""
 	if g.p(0.5) {
 		s1, s2 = storeURL, storeURL2
@@ -67,13 +70,13 @@ func genC18(g *Gen) *Plan {
 		for j := 0; j < 8; j++ {
 			s = append(s, cacheable(g.n(20, 60), g.n(10, 100)))
 		}
-		p.Scripts["GET "+hostA+" "+u] = s
+		p.Scripts["GET "+host+" "+u] = s
 	}
 	p.Default = cacheable(30, 40)
 	unnamed := false
 	withhold := g.p(0.35)
 	if withhold {
-		p.Withhold = []string{"GET " + hostA + " " + uris[0]}
+		p.Withhold = []string{"GET " + host + " " + uris[0]}
 	}
 	n := g.n(12, 30)
 	for i := 0; i < n; i++ {
@@ -83,18 +86,18 @@ func genC18(g *Gen) *Plan {
 			if g.p(0.4) {
 				u = uris[0]
 			}
-			op := reqOp("GET", hostA, u)
+			op := reqOp("GET", host, u)
 			op.Addr = pick(g, srvAddr, srvAddr, srvAddr2)
 			op.Barrier = g.p(0.25)
 			p.Ops = append(p.Ops, op)
 		case x < 9:
-			key := "GET " + hostA + " " + uris[g.R.IntN(len(uris))]
+			key := "GET " + host + " " + uris[g.R.IntN(len(uris))]
 			if g.p(0.5) {
-				key = "GET " + hostA + " " + uris[0]
+				key = "GET " + host + " " + uris[0]
 			}
 			cacheName := pick(g, "c1", "c1", "c2", "", "nosuch")
 			if g.p(0.1) {
-				key = "GET " + hostA + " /never-requested"
+				key = "GET " + host + " /never-requested"
 			}
 			if cacheName == "" {
 				unnamed = true
